@@ -28,28 +28,47 @@ def r_tree_fill(ck: Checker) -> None:
     ck.holds("R-TREE-FILL", f, loops[0], what)
     ck.holds("R-FULLTRAV", f, loops[0], "Tree.__init__ iterates a full traversal (dfs/bfs without prune/filter)")
     lp = loops[0]
-    n = norm(lp.target)
-    stores = {norm(st.targets[0].value): st for st in lp.body if isinstance(st, ast.Assign) and isinstance(st.targets[0], ast.Subscript)}
+    # the traversal record, however it is bound: `for n in ...` (n.node, n.parent, ...) or `for node, parent, field, findex in ...`
+    rec_fields = [st.target.id for st in ck.repo.cls("pyoak.node", "NodeTraversalInfo").node.body if isinstance(st, ast.AnnAssign) and isinstance(st.target, ast.Name)]
+    from ..normalize import _Subst
+    import copy
+    if isinstance(lp.target, ast.Name):
+        sub = {lp.target.id: ast.Name(id="REC", ctx=ast.Load())}
+    elif isinstance(lp.target, ast.Tuple) and len(lp.target.elts) == len(rec_fields) and all(isinstance(e, ast.Name) for e in lp.target.elts):
+        sub = {e.id: ast.Attribute(value=ast.Name(id="REC", ctx=ast.Load()), attr=fld, ctx=ast.Load()) for e, fld in zip(lp.target.elts, rec_fields)}  # type: ignore[attr-defined]
+    else:
+        raise Unsupported("Tree.__init__: loop target is neither a record name nor a full unpacking of the record", lp)
+    n = "REC"
+    aliases = [st for st in fn.body[:fn.body.index(lp)] if isinstance(st, ast.Assign) and len(st.targets) == 1 and isinstance(st.targets[0], ast.Name)]
+    lbody = [ast.fix_missing_locations(_Subst(sub).visit(copy.deepcopy(st))) for st in lp.body]
+    lv = decision_tree(aliases + lbody, resolve=True)
+    if len(lv) != 1 or lv[0].outcome != "fall":
+        raise Unsupported("Tree.__init__: the table-filling loop body branches", lp)
+    stores = {norm(st.targets[0].value): st for st in lv[0].stmts if isinstance(st, ast.Assign) and isinstance(st.targets[0], ast.Subscript)}
+    mentions = {t: any(t in norm(st) for st in lv[0].stmts[len(aliases):]) for t in ("self._node_to_parent_info", "self._node_to_xpath")}
     pi = stores.get("self._node_to_parent_info")
     what = "the parent table maps every traversed node to (parent, field, index) of the same traversal record"
+    if pi is None and mentions["self._node_to_parent_info"]:
+        raise Unsupported("Tree.__init__: the parent table is filled by something other than a subscript store", lp)
     if pi is not None and norm(pi.targets[0].slice) == f"{n}.node" and norm(pi.value) in (
-            f"ParentInfo({n}.parent, {n}.field, {n}.findex)", f"ParentInfo(parent={n}.parent, field={n}.field, findex={n}.findex)"):
-        ck.holds("R-TREE-FILL", f, pi, what)
+            f"ParentInfo({n}.parent, {n}.field, {n}.findex)", f"ParentInfo(parent={n}.parent, field={n}.field, findex={n}.findex)",
+            f"ParentInfo(*{n}[1:])", f"ParentInfo({n}.parent, {n}.field, findex={n}.findex)"):
+        ck.holds("R-TREE-FILL", f, lp, what)
     else:
         ck.violation("R-TREE-FILL", f, lp, what, construct=f"parent table store: {norm(pi)[:90] if pi is not None else None}")
     xp = stores.get("self._node_to_xpath")
     what = "the xpath of a node is its parent's xpath + '/@<field>[<index or 0>]<Class>'"
     ok = False
+    if xp is None and mentions["self._node_to_xpath"]:
+        raise Unsupported("Tree.__init__: the xpath table is filled by something other than a subscript store", lp)
     if xp is not None and norm(xp.targets[0].slice) == f"{n}.node":
         segs = eval_str(xp.value, {}, {})
         desc = [(s.text if isinstance(s, Lit) else "{" + s.src + "}") for s in segs]
-        ok = desc == ["{self._node_to_xpath[" + n + ".parent]}", "/@", "{" + n + ".field.name}", "[", "{" + n + ".findex or '0'}", "]",
-                      "{" + n + ".node.__class__.__name__}"]
-        if not ok:
-            ok = desc == ["{self._node_to_xpath[" + n + ".parent]}", "/@", "{" + n + ".field.name}", "[", "{" + n + ".findex or 0}", "]",
-                          "{type(" + n + ".node).__name__}"]
+        ok = desc[:4] == ["{self._node_to_xpath[" + n + ".parent]}", "/@", "{" + n + ".field.name}", "["] and len(desc) == 7 and desc[5] == "]" \
+            and desc[4] in ("{" + n + ".findex or '0'}", "{" + n + ".findex or 0}", "{0 if " + n + ".findex is None else " + n + ".findex}") \
+            and desc[6] in ("{" + n + ".node.__class__.__name__}", "{type(" + n + ".node).__name__}")
     if ok:
-        ck.holds("R-TREE-FILL", f, xp, what)
+        ck.holds("R-TREE-FILL", f, lp, what)
     else:
         ck.violation("R-TREE-FILL", f, lp, what, construct=f"xpath store: {norm(xp.value)[:110] if xp is not None else None}")
     inits = {norm(st.target if isinstance(st, ast.AnnAssign) else st.targets[0]): st for st in fn.body if isinstance(st, (ast.Assign, ast.AnnAssign))}
@@ -182,30 +201,44 @@ def r_tree_raise(ck: Checker) -> None:
 
 
 def r_tree_chain(ck: Checker) -> None:
+    from ..loops import chain_generator, search_loop
     f = ck.repo.func(TREE, "Tree.get_ancestors")
     body = strip_docstring(f.node.body)
     nodep = f.node.args.args[1].arg
     what = "get_ancestors yields the parent chain: starts at get_parent(node) (never the node) and follows get_parent until None"
-    ok = False
-    if len(body) == 2 and isinstance(body[0], ast.Assign) and isinstance(body[1], ast.While):
-        v = norm(body[0].targets[0])
-        w = body[1]
-        ok = norm(body[0].value) == f"self.get_parent({nodep})" and norm(w.test) == f"{v} is not None" and len(w.body) == 2 \
-            and norm(w.body[0]) == f"yield {v}" and norm(w.body[1]) == f"{v} = self.get_parent({v})" and not w.orelse
-    (ck.holds if ok else ck.violation)("R-TREE-CHAIN", f, f.node, what, **({} if ok else {"construct": "get_ancestors: parent-chain loop not recognised / wrong"}))
+    v = chain_generator(body, nodep, lambda x: f"self.get_parent({x})", lambda x: f"self.get_ancestors({x})")
+    if v.ok:
+        ck.holds("R-TREE-CHAIN", f, f.node, what, evaluations=v.evaluations, proof=v.why)
+    else:
+        ck.violation("R-TREE-CHAIN", f, f.node, what, construct=f"get_ancestors: {v.why}")
     g = ck.repo.func(TREE, "Tree.is_ancestor")
     body = strip_docstring(g.node.body)
     np_, ap = g.node.args.args[1].arg, g.node.args.args[2].arg
     what = "is_ancestor(node, ancestor) is true iff `ancestor` is (identically) one of get_ancestors(node)"
-    ok = False
-    if len(body) == 2 and isinstance(body[0], ast.For) and isinstance(body[1], ast.Return) and norm(body[1].value) == "False":
-        lp = body[0]
-        a = norm(lp.target)
-        ok = norm(lp.iter) == f"self.get_ancestors({np_})" and len(lp.body) == 1 and isinstance(lp.body[0], ast.If) and not lp.body[0].orelse \
-            and norm(lp.body[0].test) in (f"{a} is {ap}", f"{ap} is {a}") and norm(lp.body[0].body[0]) == "return True"
-    elif len(body) == 1 and isinstance(body[0], ast.Return):
-        ok = norm(body[0].value) in (f"any((a is {ap} for a in self.get_ancestors({np_})))",)
-    (ck.holds if ok else ck.violation)("R-TREE-CHAIN", g, g.node, what, **({} if ok else {"construct": "is_ancestor: identity search over get_ancestors(node) not recognised / wrong"}))
+    sr = search_loop(body)
+    bad = None
+    if sr.prologue:
+        raise Unsupported("is_ancestor: code before the search loop", g.node)
+    if norm(sr.iter) != f"self.get_ancestors({np_})":
+        bad = f"searches {norm(sr.iter)[:60]} instead of get_ancestors({np_})"
+    else:
+        key = k_is(sr.target, ap)
+        keq = k_eq(sr.target, ap)
+        for lf in sr.leaves:
+            if keq in lf.assign:
+                bad = "compares by value (==) instead of identity"
+                break
+            if set(lf.assign) - {key}:
+                raise Unsupported(f"is_ancestor: loop decides on {sorted(lf.assign)}", g.node)
+            if key not in lf.assign:
+                bad = "the loop leaves / continues without comparing the candidate with `ancestor`"
+            elif lf.assign[key] and not (lf.outcome == "return" and lf.val() == "True"):
+                bad = f"identical ancestor found: {lf.outcome} {lf.val()}"
+            elif not lf.assign[key] and lf.outcome not in ("fall", "continue"):
+                bad = f"different ancestor: {lf.outcome} {lf.val()}"
+        if bad is None and (sr.default is None or norm(sr.default) != "False"):
+            bad = f"no ancestor is identical: returns {norm(sr.default) if sr.default is not None else None}"
+    (ck.holds if not bad else ck.violation)("R-TREE-CHAIN", g, g.node, what, **({"evaluations": len(sr.leaves)} if not bad else {"construct": f"is_ancestor: {bad}"}))
     h = ck.repo.func(TREE, "Tree.is_root")
     rets = [s for s in walk_body(h.node.body) if isinstance(s, ast.Return)]
     what = "is_root(node) is `node is the root`"
